@@ -11,6 +11,8 @@ group references); VERIF_SEED selects the slice of the scopes and of the pool th
 A seeded sample is re-built one by one in strict mode: strict build raises XMLSchemaModelError
 exactly when the lax build attached a model error to that type.
 """
+import itertools
+import os
 import random
 
 from vf import core
@@ -42,9 +44,11 @@ SCOPES = {
     # S7: namespace-list wildcards that meet only on ##local / one namespace; S8 (XSD 1.1 only): two heads sharing a member
     'S7': dict(names='lLwtb', occs=[(1, 1), (0, 1), (0, None)], max_leaves=2, canon_swap=False),
     'S8': dict(names='pqjb', occs=[(1, 1), (0, 1), (0, None)], max_leaves=2, canon_swap=False),
+    # S9: a head with block="substitution" and its would-be member (no competition between the two)
+    'S9': dict(names='hib', occs=[(1, 1), (0, 1), (0, None)], max_leaves=2, canon_swap=False),
 }
 ONLY_11 = {'S8'}
-QUICK_FRACTION = {'S1': 0.04, 'S2': 0.25, 'S3': 1.0, 'S5': 1.0, 'S6': 0.1, 'S7': 0.1, 'S8': 0.15}
+QUICK_FRACTION = {'S1': 0.04, 'S2': 0.25, 'S3': 1.0, 'S5': 1.0, 'S6': 0.1, 'S7': 0.1, 'S8': 0.15, 'S9': 1.0}
 # S6: models with prohibited particles (minOccurs = maxOccurs = 0): a fixed sample of the <= 3-leaf scope
 S6_OCCS = [(1, 1), (0, 1), (0, 0), (1, None), (2, 3)]
 S6_SEED, S6_SIZE = 20260926, 12000
@@ -100,6 +104,66 @@ def judge_batch(ver, models, st, strict_sample=None, wrap=None):
                             'expected': 'strict build raises XMLSchemaModelError iff lax build '
                                         'attached a model error (%s)' % got,
                             'observed': oth or fails, 'key': 'strict|' + key(ver, m), 'classes': []})
+    return out
+
+
+# ------------------------------------------------------------------------------------ wildcards of two namespaces
+
+X_NS = ['##any', '##other', '##targetNamespace', '##local', 'urn:u', 'urn:a', 'urn:u ##local', 'urn:t urn:u', 'urn:a ##local']
+X_UNIVERSE = ['urn:t', 'urn:u', 'urn:a', 'urn:fresh', '']
+
+
+def x_denote(c, tns):
+    if c == '##any':
+        return set(X_UNIVERSE)
+    if c == '##other':
+        return {n for n in X_UNIVERSE if n not in (tns, '')}
+    return {tns if t == '##targetNamespace' else '' if t == '##local' else t for t in c.split()}
+
+
+def judge_crossns(ver, st):
+    """A wildcard declared in the main schema (urn:t) next to a wildcard that comes from a named group of an IMPORTED
+    schema (urn:u): '##other' and '##targetNamespace' of the group are relative to urn:u.  Two optional wildcards in a row
+    compete for a child exactly when their namespace sets meet."""
+    import shutil
+    import tempfile
+    import xmlschema
+    out = []
+    cls = xmlschema.XMLSchema11 if ver == '11' else xmlschema.XMLSchema10
+    d = tempfile.mkdtemp(prefix='vf_c15x_')
+    try:
+        for cg, cl, order in itertools.product(X_NS, X_NS, ('local-first', 'group-first')):
+            with open(os.path.join(d, 'u.xsd'), 'w') as f:
+                f.write('<xs:schema xmlns:xs="http://www.w3.org/2001/XMLSchema" targetNamespace="urn:u"><xs:group name="ext">'
+                        '<xs:sequence><xs:any namespace="%s" processContents="lax" minOccurs="0"/></xs:sequence></xs:group>'
+                        '</xs:schema>' % cg)
+            loc = '<xs:any namespace="%s" processContents="lax" minOccurs="0"/>' % cl
+            grp = '<xs:group ref="u:ext"/>'
+            body = (loc + grp) if order == 'local-first' else (grp + loc)
+            main = ('<xs:schema xmlns:xs="http://www.w3.org/2001/XMLSchema" xmlns:t="urn:t" xmlns:u="urn:u" '
+                    'targetNamespace="urn:t"><xs:import namespace="urn:u" schemaLocation="u.xsd"/><xs:element name="r">'
+                    '<xs:complexType><xs:sequence>%s</xs:sequence></xs:complexType></xs:element></xs:schema>' % body)
+            mp = os.path.join(d, 'main.xsd')
+            with open(mp, 'w') as f:
+                f.write(main)
+            exp = bool(x_denote(cg, 'urn:u') & x_denote(cl, 'urn:t'))
+            st.case()
+            st.nt(('crossns', ver, cg, cl, order))
+            try:
+                cls(mp)
+                got = False
+            except xmlschema.XMLSchemaModelError:
+                got = True
+            st.cls(('nondet' if exp else 'det') + '_crossns_' + ver)
+            if exp != got:
+                out.append({'kind': 'missed_crossns' if exp else 'false_alarm_crossns',
+                            'input': {'ver': ver, 'group_wildcard_in_urn_u': cg, 'local_wildcard_in_urn_t': cl, 'order': order},
+                            'expected': 'model error (the two optional wildcards share %s)' % sorted(
+                                x_denote(cg, 'urn:u') & x_denote(cl, 'urn:t')) if exp else 'accepted (disjoint namespace sets)',
+                            'observed': 'model error' if got else 'accepted',
+                            'key': 'crossns|%s|%s|%s|%s' % (ver, cg, cl, order), 'classes': []})
+    finally:
+        shutil.rmtree(d, ignore_errors=True)
     return out
 
 
@@ -245,12 +309,19 @@ def shards(tier, seed):
             out.append(('B', ver, k, 8, tier, seed))
         for k in range(2):
             out.append(('W', ver, k, 2, tier, seed))
+        out.append(('X', ver))
     return out
 
 
 def run_shard(desc):
     st = core.Stats()
     recs = []
+    if desc[0] == 'X':
+        for r in judge_crossns(desc[1], st):
+            core.report(st, PROPERTY, r)
+        st.sample({'scope': 'two optional wildcards, one from a group of an imported namespace', 'ver': desc[1],
+                   'constraints': X_NS})
+        return st
     if desc[0] == 'A':
         _, ver, name, k, n, tier, seed = desc
         models = _scope_models(name)
@@ -318,8 +389,10 @@ def finalize(total, tier, seed):
 def replay(record):
     st = core.Stats()
     inp = record['input']
-    m = cm.tolist(inp['model'])
     ver = inp['ver']
+    if record['kind'].endswith('_crossns'):
+        return [r for r in judge_crossns(ver, st) if r['key'] == record.get('key')]
+    m = cm.tolist(inp['model'])
     if record['kind'] == 'strict_vs_lax':
         return [r for r in judge_batch(ver, [m], st, strict_sample=lambda i: True)
                 if r['kind'] == 'strict_vs_lax']
